@@ -187,7 +187,9 @@ var reqShapes = []reqShape{
 }
 
 type c16world struct {
-	stalling bool // the current script contains a stall: use the forwarder with the short response-header timeout
+	panicOn  int           // the user's listener callback panics once on this notification (-1: never)
+	watchdog time.Duration // 0: 30s
+	stalling bool          // the current script contains a stall: use the forwarder with the short response-header timeout
 	shape    int
 	backend  *Backend
 	proxy    http.Handler
@@ -213,7 +215,14 @@ func newC16World() *c16world {
 			fPatient.ServeHTTP(rw, r)
 		}
 	})
-	w.proxy = forward.NewStateListener(inner, func(u *url.URL, state int) { w.events = append(w.events, state) })
+	w.panicOn = -1
+	w.proxy = forward.NewStateListener(inner, func(u *url.URL, state int) {
+		w.events = append(w.events, state)
+		if state == w.panicOn {
+			w.panicOn = -1
+			panic("listener callback failed")
+		}
+	})
 	return w
 }
 
@@ -287,7 +296,12 @@ func (w *c16world) exchange(script []step, target *url.URL, cancelOnArrival bool
 	var o outcome
 	select {
 	case o = <-done:
-	case <-time.After(30 * time.Second):
+	case <-time.After(func() time.Duration {
+		if w.watchdog > 0 {
+			return w.watchdog
+		}
+		return 30 * time.Second
+	}()):
 		o.hung = true
 	}
 	o.events = append([]int{}, w.events...)
@@ -519,6 +533,27 @@ func runSpecials(w *c16world, rep *lib.Report) {
 			rep.Count("gateway_errors_mapped")
 		}
 	}
+	// the user's listener callback fails once (on either notification): whatever happens to THAT exchange, the
+	// following ordinary exchanges must be relayed as usual - no hang, pairing intact
+	okScript := respScript{200, 0, 1, "content-length", false}
+	for _, on := range []int{forward.StateConnected, forward.StateDisconnected} {
+		w.panicOn = on
+		_, d0 := w.exchange(okScript.steps(), nil, false)
+		d0()
+		w.panicOn = -1
+		w.watchdog = 10 * time.Second
+		for k := 0; k < 2; k++ {
+			o, done := w.exchange(okScript.steps(), nil, false)
+			done()
+			rep.Evaluations++
+			if o.hung || o.panic != nil || o.code != 200 || string(o.body) != string(payload(1)) || !eventsOK(o.events) {
+				rep.Violate("C16:exchange-after-failed-listener-callback", fmt.Sprintf("after the listener callback panicked once on notification %d, ordinary exchange #%d: status %d, hung %v, panic %v, events %v", on, k+1, o.code, o.hung, o.panic, o.events), what("listener-panic"))
+				break
+			}
+			rep.Count("exchanges_after_failed_listener_callback")
+		}
+		w.watchdog = 0
+	}
 	// client goes away while the backend stalls
 	o, done = w.exchange([]step{{kind: stepStall}}, nil, true)
 	done()
@@ -577,7 +612,7 @@ func RunC16(tier string, sh lib.Shard, rep *lib.Report) {
 	}
 	if sh.I == 0 {
 		runSpecials(w, rep)
-		rep.Require("client_cancellations")
+		rep.Require("client_cancellations", "exchanges_after_failed_listener_callback")
 	}
 	rep.Nontrivial = rep.Counters["faults_injected"]
 }
